@@ -137,8 +137,46 @@ func structFor(shape []field) reflect.Value {
 		if f.Kind == "untagged" {
 			v.Elem().Field(i).SetString("sentinel")
 		}
+		if !prefill {
+			continue
+		}
+		// what the struct held before (a development placeholder, the values of an earlier construction) is replaced
+		fv := v.Elem().Field(i)
+		switch f.Kind {
+		case "string", "emptyname":
+			fv.SetString(placeholder)
+		case "bytes":
+			fv.SetBytes([]byte(placeholder))
+		case "secret":
+			fv.Set(reflect.ValueOf(setec.StaticSecret(placeholder)))
+		case "binval":
+			fv.Set(reflect.ValueOf(BinVal{Data: []byte(placeholder)}))
+		case "binptr":
+			fv.Set(reflect.ValueOf(&BinVal{Data: []byte(placeholder)}))
+		case "jsonstruct":
+			fv.Set(reflect.ValueOf(JS{A: 999}))
+		case "jsonint", "emptyjson":
+			fv.SetInt(999)
+		case "float":
+			fv.SetFloat(999)
+		case "embedded":
+			fv.Field(0).SetString(placeholder)
+		}
 	}
 	return v
+}
+
+// prefill: the struct handed to ParseFields / NewStore already holds something in every tagged field (cases run one at a time)
+var prefill bool
+
+const placeholder = "placeholder"
+
+// was(fv-as-text): the field is as the harness left it before construction
+func isBefore(got string) bool {
+	if prefill {
+		return got == placeholder
+	}
+	return got == ""
 }
 
 func join(prefix, name string) string {
@@ -161,6 +199,7 @@ type line struct {
 	Err      string              `json:"err"`
 	Alias    string              `json:"alias"`
 	Live     string              `json:"live"`
+	Pre      string              `json:"pre"` // "t": every tagged field held a placeholder before construction
 	Notes    []string            `json:"notes,omitempty"`
 }
 
@@ -182,7 +221,7 @@ func observe(v reflect.Value, shape []field, prefix string, s *svc, ver int, not
 		st := "other"
 		switch f.Kind {
 		case "string", "emptyname":
-			if fv.String() == "" {
+			if isBefore(fv.String()) {
 				st = "untouched"
 			} else if want != nil && fv.String() == string(want) {
 				st = "set"
@@ -192,52 +231,52 @@ func observe(v reflect.Value, shape []field, prefix string, s *svc, ver int, not
 				st = "untouched"
 			}
 		case "bytes":
-			if fv.Len() == 0 {
+			if (!prefill && fv.Len() == 0) || (prefill && string(fv.Bytes()) == placeholder) {
 				st = "untouched"
 			} else if want != nil && bytes.Equal(fv.Bytes(), want) {
 				st = "set"
 			}
 		case "secret":
 			h := fv.Interface().(setec.Secret)
-			if h == nil {
+			if h == nil || (prefill && string(h.Get()) == placeholder) {
 				st = "untouched"
 			} else if want != nil && bytes.Equal(h.Get(), valueOf(s.form[full], s.ver[full])) {
 				st = "set" // a handle always yields the current value
 			}
 		case "binval":
 			b := fv.Interface().(BinVal)
-			if b.Data == nil {
+			if (!prefill && b.Data == nil) || (prefill && string(b.Data) == placeholder) {
 				st = "untouched"
 			} else if want != nil && bytes.Equal(b.Data, want) {
 				st = "set"
 			}
 		case "binptr":
 			b := fv.Interface().(*BinVal)
-			if b == nil || b.Data == nil {
+			if (!prefill && (b == nil || b.Data == nil)) || (prefill && b != nil && string(b.Data) == placeholder) {
 				st = "untouched" // (a nil pointer is allocated before decoding; an empty value counts as untouched)
 			} else if want != nil && bytes.Equal(b.Data, want) {
 				st = "set"
 			}
 		case "jsonstruct":
 			j := fv.Interface().(JS)
-			if j.A == 0 {
+			if (!prefill && j.A == 0) || (prefill && j.A == 999) {
 				st = "untouched"
 			} else if j.A == 40+ver {
 				st = "set"
 			}
 		case "jsonint", "emptyjson":
-			if fv.Int() == 0 {
+			if (!prefill && fv.Int() == 0) || (prefill && fv.Int() == 999) {
 				st = "untouched"
 			} else if fv.Int() == int64(70+ver) {
 				st = "set"
 			}
 		case "float":
-			if fv.Float() == 0 {
+			if (!prefill && fv.Float() == 0) || (prefill && fv.Float() == 999) {
 				st = "untouched"
 			}
 		case "embedded":
 			in := fv.Field(0).String()
-			if in == "" {
+			if isBefore(in) {
 				st = "untouched"
 			} else if want != nil && in == string(want) {
 				st = "set"
@@ -265,7 +304,7 @@ func classify(err error) string {
 var slowConstructions int
 
 func runCase(mode string, shape []field, prefix string, fm map[string]string) line {
-	ln := line{Ev: "case", Mode: mode, Shape: shape, Prefix: prefix, Names: []string{}, Requests: []string{}, Outcome: []string{}, Err: "f", Alias: "f", Live: "t"}
+	ln := line{Ev: "case", Mode: mode, Shape: shape, Prefix: prefix, Names: []string{}, Requests: []string{}, Outcome: []string{}, Err: "f", Alias: "f", Live: "t", Pre: tf(prefill)}
 	s := &svc{form: map[string]string{"base": "num"}, ver: map[string]int{"base": 1}}
 	var fnames []string
 	for n := range fm {
@@ -508,7 +547,9 @@ func TestFields(t *testing.T) {
 		if mode == "newstore" && slowConstructions >= 3 {
 			mode = "apply"
 		}
+		prefill = i%2 == 1
 		emit(runCase(mode, sh, p, fm))
+		prefill = false
 	}
 	w.Close()
 	// arguments that are not pointers to structs are rejected up front
